@@ -396,7 +396,7 @@ func (pi *postInst) stateDiff(now *State) string {
 	cls := func(k string, kr KeyRead) string {
 		switch {
 		case kr.Err != "":
-			return "error"
+			return "error:" + strings.ReplaceAll(kr.Err, " ", "_")
 		case !kr.Found:
 			return "notfound"
 		}
